@@ -211,6 +211,24 @@ func runC14(p *Prog, r *Report) {
 		ok := len(pcs) == 1 && pcs[0].Kind != "defer" && pcs[0].Fn == ap.fn && len(st) == 1 && InstrDominates(st[0].In, pcs[0].In)
 		r.Check(ok, R, "reset-only-after-attach", pcs.Pos(p), "pipeConnected (which resets the delay) runs only after the pipe was attached (added = true)", "the redial delay is reset for a connection that never attached (refused by the protocol or closed while attaching): the back-off collapses to ReconnectTime although no pipe ever came up: "+argsOf(pcs))
 	}
+	if ap := q.Fn(R, "internal/core", "socket", "addPipe"); ap.OK() {
+		// ... and after every attach of a dialed pipe: the call depends on nothing but the
+		// outcome of the attach and the pipe having a dialer
+		var pcs Sel
+		for _, k := range []string{"go", "call"} {
+			pcs = append(pcs, ap.AllEv(k, "core.(*dialer).pipeConnected")...)
+		}
+		var extra []string
+		for _, e := range pcs {
+			for _, g := range e.Guard {
+				if strings.Contains(g, ".closing") || strings.Contains(g, "AddPipe(") || strings.HasSuffix(g, ".d != nil") || strings.HasSuffix(g, ".d == nil") {
+					continue
+				}
+				extra = append(extra, g)
+			}
+		}
+		r.Check(len(pcs) >= 1 && len(extra) == 0, R, "reset-after-every-attach", pcs.Pos(p), "the dialer is told of every successful attach of a pipe it dialed (the call depends only on the attach having succeeded and on the pipe having a dialer)", "the dialer is told of a successful attach only under a further condition ("+strings.Join(extra, ", ")+"): where it does not hold the delay grown during an outage is never reset, and every later reconnect waits the maximum")
+	}
 	pc := q.Fn(R, "internal/core", "dialer", "pipeConnected")
 	if pc.OK() {
 		st := pc.Ev("store", "recv.reconnTime")
